@@ -10,10 +10,15 @@ SNAP=$(mktemp -d /tmp/fvc-snap.XXXXXX)
 mkdir -p "$SNAP/repo" "$SNAP/spec"; cp /repo/*.go /repo/go.mod /repo/go.sum "$SNAP/repo/"; cp "$V"/spec/*.fvs "$SNAP/spec/"; cp "$V/bin/fvc" "$SNAP/fvc"
 export TRY_SRC="$SNAP/repo" TRY_SPEC="$SNAP/spec" TRY_FVC="$SNAP/fvc"
 trap 'rm -rf "$SNAP"' EXIT
+# short solver limits: a canary only has to show a failure; obligations that already fail under
+# these limits on the unchanged snapshot (none expected) are not counted
+export FVC_LIMITS=4,15
+base=$(FVC_REPO="$SNAP/repo" FVC_VERIF="$SNAP/verif" FVC_SPEC="$SNAP/spec" FVC_SCRATCH="$SNAP/scratch" "$SNAP/fvc" all 2>&1 | grep -E '^  \S+#' | awk '{print $1}' | sort -u)
+[ -n "$base" ] && echo "CANARY baseline (unchanged tree, short limits) already fails: $base"
 for f in "$V"/selftest/canaries/*${pat}*.patch; do
   c=$(basename "$f" .patch)
   out=$("$V/tools/try.sh" "$f" all 2>&1)
-  fails=$(echo "$out" | grep -E '^  \S+#' | awk '{print $1}' | sort -u | head -4 | tr '\n' ' ')
+  fails=$(echo "$out" | grep -E '^  \S+#' | awk '{print $1}' | sort -u | grep -vxF "$base" | head -4 | tr '\n' ' ')
   eng=$(echo "$out" | grep -E '^   !' | head -2 | tr '\n' ' ')
   if [ -n "$fails$eng" ]; then echo "CANARY $c: detected: $fails $eng"; else echo "CANARY $c: MISSED ($(echo "$out" | tail -1))"; rc=1; fi
 done
